@@ -369,6 +369,7 @@ def run_conformance(c, ctx, seed):
         pass
     P.ID = c["name"]
     P.JUDGE = c["judge"]
+    P.SHARED_WORLD = bool(c.get("shared_world"))
     P.__name__ = "driver.check"
     obs = lib.pmap(lambda sc: default_execute(sc, ctx), scs, workers=14)
     verdicts, jstates = judge(P, obs, ctx)
